@@ -1,13 +1,202 @@
-(** C10: placeholder while the proofs are being written (replaced below). *)
-From Coq Require Import List ZArith.
-From GL Require Import lib.IMapBase model.IMap model.Chain spec.OMap model.legacy.IMapLegacy.
+(** C10: ordered map -- iteration stays correct under any mutation history.
+
+    Code: /repo/container/iterable/map.go (post-fix tree, D1 repaired by cd173af).
+    Models: model/IMap.v (L1: pointer heap, statement by statement; [sync.Pool]
+    is the oracle [ch], every theorem quantifies over all oracles), model/Chain.v
+    (L2: the list of cells), spec/OMap.v (specification: entries in insertion
+    order with a live flag, iterators are positions).  Vocabulary of the
+    corollaries: spec/OMapObs.v, model/IMapObs.v.  Proofs: proofs/C10_*.v.
+
+    [wf_hist h]: an iterator is used only between its creation and its Close
+    and a name is not re-bound while open -- any number of iterators may be
+    open at the same time, and may stay open for ever. *)
+From Coq Require Import List ZArith Arith Bool Sorted.
+From GL Require Import lib.IMapBase model.IMap model.Chain spec.OMap spec.OMapObs model.IMapObs
+  model.legacy.IMapLegacy
+  proofs.C10_ChainSim proofs.C10_Main proofs.C10_Spec.
 Import ListNotations.
+Open Scope Z_scope.
+
+(** * Refinement: every history, every number of open iterators, every pool behaviour *)
+
+Theorem C10_imap_refines_omap : forall h ch, wf_hist h -> run_imap ch h = run_omap h.
+Proof. exact imap_refines_omap. Qed.
+Print Assumptions C10_imap_refines_omap.
+
+Theorem C10_imap_no_panic : forall h ch, wf_hist h ->
+  ~ In OutPanic (run_imap ch h) /\ ~ In OutNoFuel (run_imap ch h).
+Proof. exact imap_no_panic. Qed.
+Print Assumptions C10_imap_no_panic.
+
+Theorem C10_imap_choice_independent : forall h ch ch', wf_hist h -> run_imap ch h = run_imap ch' h.
+Proof. exact imap_choice_independent. Qed.
+Print Assumptions C10_imap_choice_independent.
+
+Theorem C10_chain_refines_omap : forall h, wf_hist h -> run_chain h = run_omap h.
+Proof. exact chain_refines_omap. Qed.
+Print Assumptions C10_chain_refines_omap.
+
+Theorem C10_chain_no_panic : forall h, wf_hist h -> Forall (fun x => is_stop x = false) (run_chain h).
+Proof. exact chain_no_panic. Qed.
+Print Assumptions C10_chain_no_panic.
+
+(** a running example: three entries, an iterator, removals and an addition under it, a second
+    iterator, a Close, then the map is used again *)
+Definition C10_ex_h1 : list op := [OAdd 1 11; OAdd 2 12; OAdd 3 13; ONewIter 7].
+Definition C10_ex_h2 : list op :=
+  [ONext 7; ORemove 2; OAdd 4 14; ORemove 1; ONewIter 8; ONext 7; OHasNext 7; ONext 7; ONext 7].
+Definition C10_ex_h3 : list op := [OClose 7; OFirst; ONext 8; OClose 8; OLen; OGet 1; OGet 4].
+Definition C10_ex_h : list op := C10_ex_h1 ++ C10_ex_h2 ++ C10_ex_h3.
+
+Example C10_ex_wf : wf_hist C10_ex_h /\ wf_hist (C10_ex_h1 ++ C10_ex_h2).
+Proof. split; reflexivity. Qed.
+
+Example C10_ex_run :
+  run_omap C10_ex_h =
+    [OutUnit; OutUnit; OutUnit; OutUnit; OutNext (Some (1, 11)); OutUnit; OutUnit; OutUnit; OutUnit;
+     OutNext (Some (3, 13)); OutBool true; OutNext (Some (4, 14)); OutNext None; OutUnit;
+     OutFirst (Some 3); OutNext (Some (3, 13)); OutUnit; OutLen 2; OutGet None; OutGet (Some 14)] /\
+  run_imap always_fresh C10_ex_h = run_omap C10_ex_h /\
+  run_imap always_reuse C10_ex_h = run_omap C10_ex_h /\
+  run_chain C10_ex_h = run_omap C10_ex_h.
+Proof. vm_compute. repeat split; reflexivity. Qed.
+
+(** * The answer of the pointer model to one more call; [i_answer] is what the run outputs *)
+
+Theorem C10_answer_refines : forall ch h x, wf_hist (h ++ [x]) -> i_answer ch h x = o_answer h x.
+Proof. exact answer_refines. Qed.
+Print Assumptions C10_answer_refines.
+
+Theorem C10_run_imap_snoc : forall ch h x, wf_hist (h ++ [x]) ->
+  run_imap ch (h ++ [x]) = run_imap ch h ++ [i_answer ch h x].
+Proof. exact run_imap_snoc. Qed.
+Print Assumptions C10_run_imap_snoc.
+
+Example C10_ex_answer :
+  i_answer always_reuse (C10_ex_h1 ++ C10_ex_h2) OFirst = OutFirst (Some 3) /\
+  i_answer always_fresh (C10_ex_h1 ++ C10_ex_h2) (ONext 8) = OutNext (Some (3, 13)).
+Proof. vm_compute. split; reflexivity. Qed.
+
+(** * Get and Len reflect exactly the live keys; First and a new iterator start at the oldest live entry
+
+    [live_kv h]: the association list obtained by the obvious fold over [h] (Add of an
+    absent key appends, Remove deletes): the live entries in insertion order. *)
+
+Theorem C10_get_len_exact : forall ch h, wf_hist h ->
+  (forall k, i_answer ch h (OGet k) = OutGet (alookup k (live_kv h))) /\
+  i_answer ch h OLen = OutLen (length (live_kv h)) /\
+  NoDup (map fst (live_kv h)).
+Proof. exact get_len_exact. Qed.
+Print Assumptions C10_get_len_exact.
+
+Theorem C10_first_is_oldest_live : forall ch h, wf_hist h ->
+  i_answer ch h OFirst = OutFirst (option_map fst (hd_error (live_kv h))) /\
+  (forall i, ~ In i (map fst (opos (ostate h))) ->
+     wf_hist (h ++ [ONewIter i]) /\ live_kv (h ++ [ONewIter i]) = live_kv h /\
+     i_answer ch (h ++ [ONewIter i]) (ONext i) = OutNext (hd_error (live_kv h))).
+Proof. exact first_is_oldest_live. Qed.
+Print Assumptions C10_first_is_oldest_live.
+
+Example C10_ex_live :
+  live_kv (C10_ex_h1 ++ C10_ex_h2) = [(3, 13); (4, 14)] /\
+  map fst (opos (ostate (C10_ex_h1 ++ C10_ex_h2))) = [8; 7].
+Proof. vm_compute. split; reflexivity. Qed.
+
+(** * One iterator
+
+    [added h]: every entry ever added, in order; the index of an entry is its stamp (a
+    re-added key gets a new stamp).  [pos_of h i = Some p]: iterator [i] is open after
+    [h] and has passed every stamp below [p].  [returned i h1 h2]: the stamps returned by
+    the calls [Next i] made during [h2]; [i_rets ch i h1 h2]: the entries the pointer
+    model returns to these calls. *)
+
+Theorem C10_iter_never_removed : forall ch h i k v, wf_hist (h ++ [ONext i]) ->
+  i_answer ch h (ONext i) = OutNext (Some (k, v)) -> In (k, v) (live_kv h).
+Proof. exact iter_never_removed. Qed.
+Print Assumptions C10_iter_never_removed.
+
+Theorem C10_added_prefix : forall h1 h2, exists t, added (h1 ++ h2) = added h1 ++ t.
+Proof. exact added_prefix. Qed.
+Print Assumptions C10_added_prefix.
+
+Theorem C10_rets_stamps : forall ch i h2 h1, wf_hist (h1 ++ h2) ->
+  map Some (i_rets ch i h1 h2) = map (nth_error (added (h1 ++ h2))) (returned i h1 h2).
+Proof. exact rets_stamps. Qed.
+Print Assumptions C10_rets_stamps.
+
+Theorem C10_iter_window : forall h2 h1 i p,
+  wf_hist (h1 ++ h2) -> pos_of h1 i = Some p -> ~ In (OClose i) h2 ->
+  exists p', pos_of (h1 ++ h2) i = Some p' /\ (p <= p')%nat /\
+    StronglySorted lt (returned i h1 h2) /\
+    (forall j, In j (returned i h1 h2) -> (p <= j < p')%nat) /\
+    (forall j, (p <= j < p')%nat -> live_at (h1 ++ h2) j = true -> In j (returned i h1 h2)).
+Proof. exact iter_window. Qed.
+Print Assumptions C10_iter_window.
+
+Theorem C10_iter_in_order_once : forall ch h1 h2 i p,
+  wf_hist (h1 ++ h2) -> pos_of h1 i = Some p -> ~ In (OClose i) h2 ->
+  exists stamps, StronglySorted lt stamps /\ NoDup stamps /\
+    map Some (i_rets ch i h1 h2) = map (nth_error (added (h1 ++ h2))) stamps.
+Proof. exact imap_iter_in_order_once. Qed.
+Print Assumptions C10_iter_in_order_once.
+
+Theorem C10_iter_complete : forall ch h1 h2 i p p' j,
+  wf_hist (h1 ++ h2) -> pos_of h1 i = Some p -> ~ In (OClose i) h2 -> pos_of (h1 ++ h2) i = Some p' ->
+  (p <= j < p')%nat -> live_at (h1 ++ h2) j = true ->
+  exists e, nth_error (added (h1 ++ h2)) j = Some e /\ In e (i_rets ch i h1 h2).
+Proof. exact imap_iter_complete. Qed.
+Print Assumptions C10_iter_complete.
+
+Theorem C10_iter_sees_added : forall ch h1 k v h2 i p,
+  wf_hist (h1 ++ OAdd k v :: h2) -> pos_of h1 i = Some p -> ~ In (OClose i) h2 ->
+  alookup k (live_kv h1) = None ->
+  let j := length (added h1) in
+  let h := h1 ++ OAdd k v :: h2 in
+  nth_error (added h) j = Some (k, v) /\
+  (live_at h j = true ->
+     In (k, v) (i_rets ch i h1 (OAdd k v :: h2)) \/
+     (exists j', stamp_ret h i = Some j' /\ (j' <= j)%nat)).
+Proof. exact imap_iter_sees_added. Qed.
+Print Assumptions C10_iter_sees_added.
+
+(** iterator 7 of the running example: created on three entries; entry 2 is removed before it
+    gets there (skipped), entry 4 is added under it (seen), entry 1 is removed after it was
+    returned; it returns the stamps 0, 2, 3, each once, and its window ends at 4 *)
+Example C10_ex_iter :
+  pos_of C10_ex_h1 7 = Some 0%nat /\ ~ In (OClose 7) C10_ex_h2 /\
+  pos_of (C10_ex_h1 ++ C10_ex_h2) 7 = Some 4%nat /\
+  added (C10_ex_h1 ++ C10_ex_h2) = [(1, 11); (2, 12); (3, 13); (4, 14)] /\
+  map (live_at (C10_ex_h1 ++ C10_ex_h2)) [0; 1; 2; 3]%nat = [false; false; true; true] /\
+  returned 7 C10_ex_h1 C10_ex_h2 = [0; 2; 3]%nat /\
+  i_rets always_reuse 7 C10_ex_h1 C10_ex_h2 = [(1, 11); (3, 13); (4, 14)] /\
+  i_rets always_fresh 7 C10_ex_h1 C10_ex_h2 = [(1, 11); (3, 13); (4, 14)].
+Proof.
+  vm_compute. repeat split; try reflexivity. intros H. repeat (destruct H as [H|H]; [discriminate H|]). exact H.
+Qed.
+
+(** * D1: closing an iterator, also one parked on a removed entry, leaves the map usable *)
+
+Theorem C10_close_leaves_usable : forall ch h i, wf_hist (h ++ [OClose i]) ->
+  let h' := h ++ [OClose i] in
+  i_answer ch h (OClose i) = OutUnit /\ live_kv h' = live_kv h /\
+  (forall k, i_answer ch h' (OGet k) = OutGet (alookup k (live_kv h))) /\
+  i_answer ch h' OLen = OutLen (length (live_kv h)) /\
+  i_answer ch h' OFirst = OutFirst (option_map fst (hd_error (live_kv h))) /\
+  (forall i', ~ In i' (map fst (opos (ostate h'))) ->
+     i_answer ch (h' ++ [ONewIter i']) (ONext i') = OutNext (hd_error (live_kv h))).
+Proof. exact close_leaves_usable. Qed.
+Print Assumptions C10_close_leaves_usable.
+
+(** the history of D1: the iterator is parked on entry 1 when it is removed, then closed *)
+Example C10_ex_d1_fixed :
+  wf_hist d1_witness /\
+  run_imap always_fresh d1_witness = [OutUnit; OutUnit; OutUnit; OutUnit; OutUnit; OutFirst (Some 2)] /\
+  run_imap always_reuse d1_witness = [OutUnit; OutUnit; OutUnit; OutUnit; OutUnit; OutFirst (Some 2)].
+Proof. vm_compute. repeat split; reflexivity. Qed.
+
+(** * The code before the fix cd173af (model/legacy/IMapLegacy.v: [Map.release] drops the new head) *)
 
 Theorem C10_legacy_imap_refuted :
   exists h, wf_hist h /\ In OutPanic (run_imap_legacy always_fresh h) /\ ~ In OutPanic (run_omap h).
-Proof.
-  exists d1_witness. split; [reflexivity|]. split.
-  - vm_compute. tauto.
-  - vm_compute. intuition discriminate.
-Qed.
+Proof. exact legacy_imap_refuted. Qed.
 Print Assumptions C10_legacy_imap_refuted.
